@@ -133,9 +133,13 @@ class Gen:
         sem = "most" if rng.random() < self.most else "least"
         if k == "step":
             n = {"k": "step", "val": gen_value(rng), "sem": sem}
-            if rng.random() < 0.3:  # equal container payloads in several operations, updated in place by the workflow
+            r = rng.random()
+            if r < 0.3:  # equal container payloads in several operations, updated in place by the workflow
                 n["val"] = rng.choice([[], {}, [1], {"a": []}, [[]]])
                 n["mutate"] = True
+            elif r < 0.42:  # a custom serdes: plain JSON, or one that binds the payload to the operation it was written for
+                n["val"] = gen_value(rng, json_only=True)
+                n["serdes"] = rng.choice(["json", "ctxbound", "ctxbound", "tagged"])
             return n
         if k == "fstep":  # failing step caught by try
             cls = rng.choice(["ValueError", "UserErr", "KeyError"])
